@@ -72,7 +72,7 @@ def eval_dyad_amend(a, b, backend):
         # TOOD: use bknp.put if we can
         r = r.tolist()
         for i in b[1:]:
-            r[i] = b[0]
+            r[int(i)] = b[0]  # b is one array: next to a real b1 the indices are reals too
         r = backend.kg_asarray(r)
     else:
         r = _widen_for(r, b[0])
